@@ -13,7 +13,7 @@ Quantifier: {d['quantifier']['text']}
 Why the test suite cannot settle it: {d['why_tests_cant']}
 Code it is anchored in: {json.dumps(d['anchors'].get('files'))}; mechanisms: {json.dumps([m.get('name') for m in d['anchors'].get('mechanism',[])])}
 
-YOUR WORKSPACE: a scratch git worktree of the repository at {wt} (create nothing elsewhere except under {out}). Work ONLY there. Do NOT read, list or use anything under /verif or /repo (you must not know what the tool can detect). Python interpreter: /venv/bin/python (run things with cwd={wt} so that `import mpmath` picks up the worktree: e.g. `cd {wt} && /venv/bin/python demo.py`). There is no network.
+YOUR WORKSPACE: a scratch git worktree of the repository at {wt} (create nothing elsewhere except under {out}). Work ONLY there. Do NOT read, list or use anything under /verif or /repo (you must not know what the tool can detect). Python interpreter: /venv/bin/python (run things with cwd={wt} so that `import mpmath` picks up the worktree: e.g. `cd {wt} && /venv/bin/python demo.py`). There is no network. Do not use `git stash` (the stash is shared between all worktrees of the repository).
 
 REQUIREMENTS for each of the two changes (k = 1, 2):
 1. It is a plausible edit a maintainer could make by mistake or as a "cleanup/optimisation" (a typo-sized slip, a reordered statement, a dropped guard, a tightened constant, a refactor that loses a case, two cooperating sites that each look fine alone, ...). NOT a blatant sabotage, and NOT something ordinary use would expose at once: it should need something specific to manifest (an unusual input, a particular precision or rounding mode, a multi-step sequence of operations, a particular history of earlier calls, an exception at a particular point, ...).
